@@ -19,7 +19,7 @@ pub fn meta() -> Meta {
     Meta {
         id: "C09",
         level: "exploration",
-        rule: "for all 30 valid k x both strand modes x input families {generic pool; all split k-mers fit in 64 bits (k>=33: records of length k starting with k-33 A's, verified by the model to be < 2^64); mixed fitting + non-fitting samples; a 3 kb genome (thousands of k-mers)}: `ska build` then every subcommand on the saved file through the CLI — nk --full-info (incl. k_bits), align, map aln+vcf, distance, weed, delete, merge with a second file in both orders (fitting/non-fitting in both orders) and the empty-after-filter file — each compared with what the model derives from the source sequences; every stored field is read back with the independent mirror decoder. Non-trivial = a CLI command on a non-empty file; distinct outcomes = distinct expected outputs.".into(),
+        rule: "for all 30 valid k x both strand modes x input families {generic pool; all split k-mers fit in 64 bits (k>=33: records of length k starting with k-33 A's, verified by the model to be < 2^64); mixed fitting + non-fitting samples; a 3 kb genome (thousands of k-mers)}: `ska build` then every subcommand on the saved file through the CLI — nk --full-info (incl. k_bits), align, map aln+vcf, distance, weed, delete, merge with a second file in both orders (fitting/non-fitting in both orders; a second file reduced by a filter; a second file emptied of all k-mers) and the empty-after-filter file — each compared with what the model derives from the source sequences; every stored field is read back with the independent mirror decoder. Non-trivial = a CLI command on a non-empty file; distinct outcomes = distinct expected outputs.".into(),
         assumptions: vec!["the model stands in for 'the in-memory data it was saved from' (their agreement is C01/C06/C07/C08/C13/C14's subject)".into()],
         exhaustive_when_uncapped: true,
     }
@@ -258,6 +258,40 @@ fn check_family(rep: &mut Report, k: usize, rc: bool, fam: &Fam, dir: &str) -> V
             }
             Ok(())
         })());
+    }
+    // merging with a file that was emptied by a filter, in both orders
+    let oe = cli::run(&["weed", "y.skf", "-o", "ey.skf", "--min-freq", "1", "--filter", "no-ambig", "--ambig-mask"], dir, None);
+    let yfilt = to.filter(&FilterSpec { thr: onames.len(), filt: Filt::NoAmbig, ambig_missing: false, mask: true, nogap: false });
+    if oe.code == 0 {
+        let _ = std::fs::remove_file(format!("{dir}/unrelated.fa"));
+        // and one emptied completely: keep only the k-mers of an unrelated sequence
+        let unrelated = repeat_free(2 * k + 3, k, 0, 424242);
+        std::fs::write(format!("{dir}/unrelated.fa"), scratch::fasta(&[unrelated.clone()])).unwrap();
+        let oz = cli::run(&["weed", "y.skf", "unrelated.fa", "--reverse", "-o", "zy.skf", "--min-freq", "0"], dir, None);
+        let yzero = to.weed(&[unrelated], true);
+        let mut cands: Vec<(&str, Table)> = vec![("ey.skf", yfilt)];
+        if oz.code == 0 {
+            if yzero.rows.is_empty() {
+                rep.corner("merge with a file that holds samples but no k-mers");
+            }
+            cands.push(("zy.skf", yzero));
+        }
+        for (fname, tab) in cands {
+            for (first, second, want) in [("x.skf", fname, t.merge(&tab)), (fname, "x.skf", tab.merge(&t))] {
+                let _ = std::fs::remove_file(format!("{dir}/m2.skf"));
+                let o = cli::run(&["merge", first, second, "-o", "m2"], dir, None);
+                step(rep, &format!("merge {first} {second}"), (|| {
+                    if o.code != 0 {
+                        return Err(format!("exit {} {}", o.code, tail(&o)));
+                    }
+                    let got = FileState::read(&format!("{dir}/m2.skf"))?;
+                    if got.table != want {
+                        return Err(format!("merged table has {} rows / names {:?}; model {} rows / {:?}", got.table.rows.len(), got.table.names, want.rows.len(), want.names));
+                    }
+                    Ok(())
+                })());
+            }
+        }
     }
     // empty-after-filter file
     let o = cli::run(&["weed", "x.skf", "-o", "e.skf", "--min-freq", "1", "--filter", "no-ambig-or-const", "--no-gap-only-sites"], dir, None);
